@@ -633,7 +633,17 @@ func TestLimitsExactAndIndependent(t *testing.T) {
 		}
 		// optional growth of the delta / request
 		if rapid.Bool().Draw(t, "growDelta") && s.typ != "deactivate" {
-			s.patchs = append(s.patchs, map[string]interface{}{"action": "add-also-known-as", "uris": []interface{}{"https://pad.example/" + strings.Repeat("p", rapid.IntRange(1, 3000).Draw(t, "padLen"))}})
+			// the padding also carries characters whose encoding/json spelling is longer than their canonical one
+			// (&, <, >, U+2028, small exponents), so that "canonical size" and "some other serialized size" differ
+			pad := strings.Repeat("p", rapid.IntRange(1, 3000).Draw(t, "padLen"))
+			if rapid.Bool().Draw(t, "htmlChars") {
+				pad += strings.Repeat("&a=<b>", rapid.IntRange(1, 6).Draw(t, "htmlRepeat"))
+			}
+			s.patchs = append(s.patchs, map[string]interface{}{"action": "add-also-known-as", "uris": []interface{}{"https://pad.example/?q=" + pad}})
+			if rapid.Bool().Draw(t, "oddValues") {
+				s.patchs = append(s.patchs, map[string]interface{}{"action": "ietf-json-patch", "patches": []interface{}{
+					map[string]interface{}{"op": "add", "path": "/odd", "value": []interface{}{"line\u2028sep", 1e-7, "R&D <team>"}}}})
+			}
 		}
 		req := buildReq(s, nil)
 		if rapid.Bool().Draw(t, "padRequest") {
